@@ -103,7 +103,7 @@ Lemma connect_fields cx s ra rp lp s' :
   rp <> 0 /\ ra <> 0 /\ lp <> 0 /\ s_state s' = SynSent /\
   s_tuple s' = Some (mkTuple (cx_addr cx) lp ra rp) /\
   s_timer s' = TIdle None /\ s_timeout s' = s_timeout s /\ s_keep_alive s' = s_keep_alive s /\
-  s_ack_delay s' = s_ack_delay s.
+  s_ack_delay s' = s_ack_delay s /\ s_remote_last_seq s' = s_local_seq_no s'.
 Proof.
   unfold tcp_connect. cbn [le_port le_addr]. intros H Hst.
   unfold tcp_is_open in H. rewrite Hst in H.
@@ -154,7 +154,7 @@ Proof.
       rewrite A1, X, (cr_st _ _ CA) in SA1. discriminate. }
   assert (X3 : sa' = sc) by (inversion Hsa; reflexivity). assert (X4 : outa = OUnit) by (inversion Hsa; reflexivity).
   rewrite X3 in A1. rewrite X4 in A3, A4. clear Hsa X3 X4.
-  destruct (connect_fields _ _ _ _ _ _ Ec (cr_st _ _ CA)) as (Hpb' & Hab & Hpa & LA1 & LA2 & LA3 & LA4 & LA5 & LA6).
+  destruct (connect_fields _ _ _ _ _ _ Ec (cr_st _ _ CA)) as (Hpb' & Hab & Hpa & LA1 & LA2 & LA3 & LA4 & LA5 & LA6 & _).
   cbn [wire_out opt_list log_written log_closed] in A3, A4, A5, B3, B4, B5. rewrite app_nil_r in A3, B3.
   assert (Hcxa : cx_addr (ep_cx a0) = c_addr ca) by (rewrite (cr_cx _ _ CA); reflexivity).
   assert (Hcxb : cx_addr (ep_cx b0) = c_addr cb) by (rewrite (cr_cx _ _ CB); reflexivity).
@@ -177,6 +177,30 @@ Proof.
   - intros z. unfold net_sock. destruct z; cbn [net_get n_a n_b]; [rewrite A1 | rewrite B1].
     + rewrite LA4, LA5, (cr_to _ _ CA), (cr_ka _ _ CA). auto.
     + rewrite LB5, LB6, (cr_to _ _ CB), (cr_ka _ _ CB). auto.
+Qed.
+
+(* in the initial state A's SYN is still to be transmitted *)
+Lemma init_needs_tx ca cb st0 :
+  net_init ca cb = Ok st0 -> net_started st0 = true -> c_keep_alive ca = None ->
+  s_remote_last_seq (net_sock st0 SA) = s_local_seq_no (net_sock st0 SA).
+Proof.
+  intros H Hstart Ka. unfold net_init in H.
+  apply obind_ok in H. destruct H as (a0 & Ha0 & H).
+  apply obind_ok in H. destruct H as (b0 & Hb0 & H).
+  apply obind_ok in H. destruct H as (b1 & Hb1 & H).
+  apply obind_ok in H. destruct H as (a1 & Ha1 & H). inversion H; subst st0; clear H.
+  pose proof (create_props _ _ Ka Ha0) as CA.
+  unfold net_started in Hstart. cbn [n_a n_b] in Hstart. apply andb_true_iff in Hstart. destruct Hstart as (SA1 & _).
+  apply state_eqb_eq in SA1.
+  destruct (ep_step_spec _ _ _ Ha1) as (sa' & outa & tagsa & Hsa & A1 & _).
+  cbn [tcp_step] in Hsa.
+  destruct (tcp_connect (ep_cx a0) (ep_sock a0) (c_addr cb) (c_port cb) (mkListenEp None (c_port ca))) as [sc|err|] eqn:Ec;
+    [| |discriminate].
+  2:{ exfalso. assert (X : sa' = ep_sock a0) by (inversion Hsa; reflexivity).
+      rewrite A1, X, (cr_st _ _ CA) in SA1. discriminate. }
+  assert (X3 : sa' = sc) by (inversion Hsa; reflexivity). rewrite X3 in A1.
+  destruct (connect_fields _ _ _ _ _ _ Ec (cr_st _ _ CA)) as (_ & _ & _ & _ & _ & _ & _ & _ & _ & L).
+  unfold net_sock. cbn [net_get n_a]. rewrite A1. exact L.
 Qed.
 
 (* ---------------------------------------------------------------------------------------- *)
